@@ -8,10 +8,16 @@
 //! VERIF_SEED (default 1) decides everything. Exit 0 = held, 1 = VIOLATION, 2 = harness error.
 
 mod core;
+#[cfg(feature = "kit-fs")]
 mod fskit;
+#[cfg(feature = "kit-sim")]
+mod simkit;
+#[cfg(feature = "kit-wire")]
+mod wirekit;
 mod props;
 
 use core::{Options, Tier};
+use props::{dispatch, Action};
 use std::path::Path;
 
 fn main() {
@@ -34,21 +40,21 @@ fn main() {
                 std::process::exit(2)
             });
             let id = v["property"].as_str().unwrap_or("").to_string();
-            dispatch!(id.as_str(), replay, path)
+            dispatch(id.as_str(), &Action::Replay(path))
         }
         "survey" => {
             let id = args[1].clone();
             let n: u64 = args.get(2).and_then(|s| s.parse().ok()).unwrap_or(2000);
-            dispatch!(id.as_str(), survey, seed, n)
+            dispatch(id.as_str(), &Action::Survey(seed, n))
         }
         "record" => {
             let id = args[1].clone();
-            dispatch!(id.as_str(), record, Path::new(&args[2]), Path::new(&args[3]))
+            dispatch(id.as_str(), &Action::Record(Path::new(&args[2]), Path::new(&args[3])))
         }
         "selfcheck" => {
             let id = args[1].clone();
             let n: u64 = args.get(2).and_then(|s| s.parse().ok()).unwrap_or(2000);
-            dispatch!(id.as_str(), selfcheck, seed, n)
+            dispatch(id.as_str(), &Action::Selfcheck(seed, n))
         }
         id => {
             let mut tier = match std::env::var("VERIF_TIER").ok().as_deref() {
@@ -77,7 +83,7 @@ fn main() {
                 i += 1;
             }
             let opt = Options { tier, seed, threads, count_override: count };
-            dispatch!(id, check, &opt)
+            dispatch(id, &Action::Check(&opt))
         }
     };
     std::process::exit(code);
